@@ -1764,7 +1764,11 @@ class Client:
 
         local_payload = _encode_payload(payload)
 
-        if len(local_payload) > 268435455:
+        # The whole packet has to fit into the 268435455 byte remaining length, not only the payload
+        remaining_length = 2 + len(topic_bytes) + len(local_payload) + (2 if qos > 0 else 0)
+        if self._protocol == MQTTv5:
+            remaining_length += 1 if properties is None else len(properties.pack())
+        if remaining_length > 268435455:
             raise ValueError('Payload too large.')
 
         local_mid = self._mid_generate()
@@ -3363,6 +3367,8 @@ class Client:
     def _pack_remaining_length(
         self, packet: bytearray, remaining_length: int
     ) -> bytearray:
+        if remaining_length > 268435455:
+            raise ValueError('Packet too large.')
         remaining_bytes = []
         while True:
             byte = remaining_length % 128
